@@ -26,6 +26,7 @@ class XMLReader(TextToModel):
         self.name_feature: dict[str, Feature] = {}
 
     def transform(self) -> FeatureModel:
+        self.name_feature = {}  # the names seen are those of THIS reading (a reader may be used again)
         rootcounter = 1
         tree = ElementTree.parse(self.path)
         xml_root = tree.getroot()
